@@ -13,7 +13,7 @@ def run(ctx):
                                                                               [{"k": "step", "dur": 3.0}]]}, {"k": "step"}]},
                           {"nodes": [{"k": "map", "branches": [[{"k": "step", "sem": "AMO"}, {"k": "wait", "s": 1}, {"k": "step", "sem": "AMO"}],
                                                                [{"k": "step", "dur": 2.5}]]}, {"k": "wait"}, {"k": "step"}]}],
-                oracle_fns=[oracles.c04],
+                oracle_fns=[oracles.c04, oracles.c12],
                 gen_kw={"kinds": ["step", "step", "wait", "child"]},
                 scen_kw={"crash": 0.8, "paging": 0.3},
                 sweep=["s06_amo_three_attempts", "s21_step_then_amo", "s16_wait_wait"],
